@@ -1,6 +1,8 @@
 import SE.Spec.Listener
 import SE.Driver.Mapper
 import SE.Driver.Relay
+import SE.Driver.Line
+import SE.Model.Utf8
 /-
 `frame dgram <hexpayload>`                     → L[<hexline> …] lines=N
 `frame tcp <hexpayload> <chunksize>*`          → L[…] lines=N toolong=0|1   (chunk sizes cut the payload; the rest is one chunk)
@@ -79,6 +81,28 @@ def framerelayCmd : List String → String
       let z := (relayCallsOf ls).foldl (fun z l => (relaySub z ["l", encHex l]).1) z0
       let z := (relaySub z ["tick"]).1
       s!"{linesStr ls} lines={ls.length} relayed=D[{" ".intercalate (z.s.sent.map encHex)}]"
+  | _ => "bad-op"
+
+end SE.Driver
+
+namespace SE.Driver
+open SE
+
+/-- `binframe <udp|tcp|unixgram> <hexpayload> [pfdict…]` — the accounting counters of listener and parser after one
+    payload (all tag syntaxes enabled): the listener model frames, the line model parses every line -/
+def binframeCmd : List String → String
+  | tr :: h :: dict =>
+    match decHex h, parseDict dict with
+    | some p, some d =>
+      let pf := dictPf d
+      let fl : ParserFlags := ⟨true, true, true, true⟩
+      let (lines, tooLong) : List Bytes × Bool :=
+        if tr == "tcp" then ((tcpLinesOfStream p).lines, (tcpLinesOfStream p).tooLong) else (datagramLines p, false)
+      let outs := lines.map fun l => lineToEvents fl pf (validUtf8 l) l
+      let sum (f : ParseOut Float → Nat) : Nat := (outs.map f).sum
+      let one (b : Bool) : Nat := if b then 1 else 0
+      s!"lines={lines.length} toolong={one tooLong} udp={one (tr == "udp")} unixgram={one (tr == "unixgram")} tcpconn={one (tr == "tcp")} samples={sum (·.samples)} errs={sum (·.errs.length)} tagerrs={sum (·.tagErrs)} tags={sum (·.tagsRecv)}"
+    | _, _ => "bad-op"
   | _ => "bad-op"
 
 end SE.Driver
